@@ -233,6 +233,9 @@ class Explorer(object):
             else:
                 v = self.binop(st.op, cur, inc, st)
             self.assign(st.target, v, env)
+        elif isinstance(st, ast.Import) and all(al.name in ('heapq', 're', 'math', 'os', 'sys', 'itertools', 'functools', 'collections') for al in st.names):
+            for al in st.names:
+                env[al.asname or al.name] = ('global', al.name)       # a local import of a library module the interpreter knows by name
         elif isinstance(st, ast.Expr):
             self.expr(st.value, env)
         elif isinstance(st, ast.Return):
@@ -550,6 +553,8 @@ class Explorer(object):
         import re as _re
         if isinstance(obj, (_re.Pattern, _re.Match)):
             return ('method', obj, name)
+        if name == 'size' and isinstance(obj, dict) and 'size' not in obj:
+            return len(obj)
         if name == 'size' and isinstance(obj, set):
             return len(obj)
         if isinstance(obj, set):
@@ -1109,6 +1114,8 @@ class Explorer(object):
         if isinstance(recv, dict):
             if m in ('items', 'keys', 'values') and not args and getattr(self.port, 'name', 'py') == 'py':
                 return [(k_, v_) for k_, v_ in recv.items()] if m == 'items' else (list(recv.keys()) if m == 'keys' else list(recv.values()))
+            if m in ('entries', 'keys', 'values') and not args and getattr(self.port, 'name', 'py') == 'js':
+                return [[k_, v_] for k_, v_ in recv.items()] if m == 'entries' else (list(recv.keys()) if m == 'keys' else list(recv.values()))     # Map iteration order = insertion order
             if m == 'get' and 1 <= len(args) <= 2:
                 return recv.get(args[0], args[1] if len(args) == 2 else None)
             if m == 'setdefault' and len(args) == 2:
